@@ -290,7 +290,9 @@ func (root *Root) regField(obj *Object, fd *FieldDef, goField string, args ...st
 		}
 		return
 	}
-	return fmt.Errorf("%w: %s is not a field of %s", ErrMeta, goField, objMeta)
+	// The type is named the same way whichever form, pointer or struct
+	// value, it happened to be bound with.
+	return fmt.Errorf("%w: %s is not a field of %s", ErrMeta, goField, mt)
 }
 
 func (root *Root) addTypes(types ...Type) error {
